@@ -220,6 +220,14 @@ def run(ctx):
             ctx.case(case)
             ctx.count('env_limit_trips')
             trip(ctx, case)
+    # files larger than 1 MiB that are still within the limit (chunked reading / encoding must not lose anything)
+    for size in ([MIB + 1, 2 * MIB + 12345] if ctx.quick else [MIB + 1, MIB + 3, 2 * MIB, 2 * MIB + 12345, 3 * MIB + 1, 5 * MIB - 1]):
+        idx += 1
+        if ctx.mine(idx):
+            case = dict(shapes(rng), seed=base + idx, size=size, limit_mb=rng.choice([8, 500]), boundary='large %d' % size)
+            ctx.case(case)
+            ctx.count('large_file_trips')
+            trip(ctx, case)
     for i in range(n):
         case = dict(shapes(rng), seed=base + 10000 + i)
         if rng.random() < 0.3:
